@@ -7,30 +7,30 @@ CHECKS = {
     "C02": {
         "category": "proof",
         "text": "Representation invariant of ActionHistory against a ghost timeline+cursor proved preserved by the real add_new_action/undo/redo "
-                "for stacks of every length; Tracks.undo/redo and every user-action constructor proved to register exactly one history entry "
+                "for stacks of every length; Tracks.undo/redo and every user-action constructor (all seven) proved to register exactly one history entry "
                 "iff top-level (none when nested or refused).",
-        "note": _PROOF_NOTE + "Conditional on C01 (assumed contract of Action.inverse). UserUpdateSegmentation not yet under contract.",
+        "note": _PROOF_NOTE + "Conditional on C01 (assumed contract of Action.inverse). UserUpdateSegmentation is under contract at the level of abstract world states (contracts/paint.py); its pixel-level behaviour is cross-checked by the exhaustive paint-stroke enumeration.",
         "technique": "contract-based deductive verification (AST->VC, z3/cvc5), ghost timeline invariant",
     },
     "C03": {
         "category": "proof",
         "text": "Forest invariant (in<=1, out<=2, nodes have a time, edges strictly forward) proved preserved on every normal exit of the real "
                 "user-action constructors over a fully symbolic graph; primitives used through contracts proved of their bodies.",
-        "note": _PROOF_NOTE + "Entry state assumed to satisfy INV (Forest, track-id partition, lookup agreement). UserUpdateSegmentation not yet under contract.",
+        "note": _PROOF_NOTE + "Entry state assumed to satisfy INV (Forest, track-id partition, lookup agreement). UserUpdateSegmentation composes sub-actions that each preserve INV (its own contract is at the level of abstract world states); native paint-stroke enumeration as cross-check.",
         "technique": "contract-based deductive verification (AST->VC, z3/cvc5), inductive state invariant",
     },
     "C11": {
         "category": "proof",
         "text": "Exceptional postcondition 'mutations, history entries and emissions unchanged' proved on every raising symbolic path of the "
-                "user-action constructors and of the primitive actions (raises-iff clauses for the primitives).",
-        "note": _PROOF_NOTE + "Argument typing (time/track id are ints) is a documented precondition. UserUpdateSegmentation not yet under contract.",
+                "user-action constructors (all seven; UserUpdateSegmentation with its rollback loop) and of the primitive actions (raises-iff clauses for the primitives).",
+        "note": _PROOF_NOTE + "Argument typing (time/track id are ints) is a documented precondition. UserUpdateSegmentation is under contract at the level of abstract world states (contracts/paint.py); its pixel-level behaviour is cross-checked by the exhaustive paint-stroke enumeration. Its rollback on refusal (fix 8860333) is proved to end in the entry world for sub-action lists of every length.",
         "technique": "contract-based deductive verification (AST->VC, z3/cvc5), exceptional postconditions with ghost mutation counter",
     },
     "C20": {
         "category": "proof",
         "text": "Ghost emission log: exactly one refresh (carrying the new node for UserAddNode) on every normal top-level exit, none when nested, "
-                "refused, or when undo/redo have nothing to do; proved for all paths of the real constructors and Tracks.undo/redo.",
-        "note": _PROOF_NOTE + "Connected callbacks are not executed. UserUpdateSegmentation not yet under contract.",
+                "refused, or when undo/redo have nothing to do; proved for all paths of the seven real constructors and Tracks.undo/redo.",
+        "note": _PROOF_NOTE + "Connected callbacks are not executed. UserUpdateSegmentation is under contract at the level of abstract world states (contracts/paint.py); its pixel-level behaviour is cross-checked by the exhaustive paint-stroke enumeration.",
         "technique": "contract-based deductive verification (AST->VC, z3/cvc5), ghost emission log",
     },
 }
@@ -40,18 +40,20 @@ _MORE = {
     "C01": ("Round trip {INV & documented precondition} A; A.inverse(); inverse-of-inverse restores nodes, edges, registered feature values, segmentation and both "
             "lookups, proved for every primitive (incl. UpdateNodeSeg, with and without segmentation) with the real inverse() methods; 'invertible here' proved at "
             "every primitive call site of the six node/edge user actions; actions list records the applied sub-actions in order; real ActionGroup.inverse proved to "
-            "return the reversed list of inverses for every length; composition by Lean lemma M4. Bounded: relabel walk body; UserUpdateSegmentation.",
+            "return the reversed list of inverses for every length; composition by Lean lemma M4; UserUpdateSegmentation proved to record a chain of sub-actions from the entry world to the final world. Relabel walk body proved. Bounded: walk bookkeeping; which sub-actions a paint stroke needs (exhaustive stroke enumeration).",
             "contract-based deductive verification (AST->VC, z3/cvc5) + Lean lemma M4 + bounded stand-in (walk)"),
     "C04": ("Local clauses T1/T2/has-id preserved by all six node/edge user actions on a symbolic forest; walk preconditions P1/P2 proved at every call site; exact "
-            "rewrite 'ids change exactly below the relabelled node'; local=>global by Lean M2. Bounded: walk body and bulk assignment on all forests <= 5 (6) nodes.",
+            "rewrite 'ids change exactly below the relabelled node'; the relabel walk body proved against its contract (nested loops, ghost frontier); local=>global by Lean M2. "
+            "Bounded: bulk assignment and cross-check of the walk on all forests <= 5 (6) nodes.",
             "contract-based deductive verification (inductive invariant, ghost descendant closure) + Lean M2/M2'/M3 + bounded stand-ins"),
     "C05": ("Local clauses L1/L2/has-id/max preserved by all six node/edge user actions (after the repair of three genuine defects); local<=>global by Lean M1. "
-            "Bounded: walk body and bulk assignment.", "contract-based deductive verification (inductive invariant) + Lean M1 + bounded stand-ins"),
+            "Walk body proved (lineage rewritten for every node below the start). Bounded: bulk assignment.", "contract-based deductive verification (inductive invariant) + Lean M1 + bounded stand-ins"),
     "C06": ("B1 (lookup = nodes carrying the id, as a bag) and B2 (maxima dominate => fresh ids) preserved by every user action; AddNode/DeleteNode bookkeeping proved with "
-            "the real helpers inlined. Bounded: bodies of get_track_neighbors/has_track_id_at_time and the walk's bookkeeping (all forests <= 5 nodes, every order of the lookup lists).",
-            "contract-based deductive verification (representation invariant of the lookups) + bounded stand-ins for the query bodies"),
+            "the real helpers inlined; bodies of get_track_neighbors (loop invariant over the lookup list) and has_track_id_at_time proved against their contracts. "
+            "Bounded: the walk's bookkeeping helpers; cross-check of the queries on all forests <= 5 nodes with every order of the lookup lists.",
+            "contract-based deductive verification (representation invariant of the lookups) + bounded stand-in for the walk's bookkeeping"),
     "C07": ("S1/S2 preserved by every primitive (symbolic label video) and the six node/edge user actions; pixel-exact write clauses; inverse restores the array bit for bit. "
-            "Bounded: paint-driven UserUpdateSegmentation by seeded random strokes.", "contract-based deductive verification over a symbolic label array + bounded stand-in (paint strokes)"),
+            "Bounded: paint-driven UserUpdateSegmentation by seeded random strokes and by every rectangular stroke up to 2x3 on two fixtures (exhaustive).", "contract-based deductive verification over a symbolic label array + bounded stand-in (paint strokes)"),
     "C08": ("Invariant R (stored = RP(attr name, node's mask in its own frame, scale[1:])) for every active key preserved by every primitive and six user actions; "
             "RegionpropsAnnotator.update proved to recompute exactly the active keys of exactly the action's node. Numeric formulas and bulk path: assumed skimage model + native oracle.",
             "contract-based deductive verification with uninterpreted measurements (congruence schema) + native numeric oracle"),
@@ -60,14 +62,18 @@ _MORE = {
     "C10": ("Protection of time and every annotator key by UpdateNodeAttrs (raises-iff, enabled or not) and 'only active keys are written' by the annotators' update() proved. "
             "enable/disable/registry/KeyError-unchanged: bounded (seeded random interleavings).", "contract-based deductive verification (raises-iff, frame on active keys) + bounded stand-in"),
     "C12": ("BOUNDED STAND-IN ONLY, DataFrame/CSV path only: exhaustive small tables incl. malformed variants vs the source table. GEFF path not covered.", "bounded stand-in (no obligation discharged)"),
-    "C13": ("BOUNDED STAND-IN ONLY: every 2x3 label array x every <=3 detections x id assignments incl. chained/permuted maps and id 0.", "bounded stand-in (no obligation discharged)"),
+    "C13": ("relabel_segmentation proved for every number of frames, pixels and table rows: nested loop invariants (np.unique over times, items of dict(zip(seg ids, node ids))) give 'source pixels of "
+            "(time, seg id) carry node id (+1 iff some id is 0), background elsewhere, input untouched, graph shifted in place exactly once iff id 0'. Bounded: cross-check on every 2x3 array x <=3 detections; "
+            "the builder's decision whether to relabel.", "contract-based deductive verification (nested loop invariants over symbolic arrays/columns) + bounded stand-in"),
     "C15": ("filter_graph_with_ancestors proved to return exactly the selection plus all ancestors (loop invariant over the set iteration, symbolic graph; closure/minimality "
             "lemma M5 in Lean). Writers (CSV rows, GEFF subgraph, chunk-wise masking): bounded stand-in on sampled forests/subsets with/without segmentation.",
             "contract-based deductive verification (loop invariant, transitive-closure model) + bounded stand-in for the writers"),
     "C16": ("Frame condition 'modifies nothing reachable from the tracks' decided by a may-alias analysis of the real AST of the exporters, savers and 27 queries (35 obligations), "
             "third-party callees assumed read-only; plus deep-snapshot bounded check.", "static frame analysis of the real AST (may-alias) + bounded stand-in"),
     "C17": ("BOUNDED STAND-IN ONLY: sampled column lists from a 28-word vocabulary of similar names, ndim None/3/4, node and edge maps.", "bounded stand-in (no obligation discharged)"),
-    "C18": ("BOUNDED STAND-IN ONLY: every placement of <=4 points in 4 frames (all gap patterns) and random label videos vs brute force.", "bounded stand-in (no obligation discharged)"),
+    "C18": ("add_cand_edges proved for every number of frames/detections/gaps: three nested loop invariants give 'edge a->b iff b is in the frame right after a's and within the maximum distance' "
+            "(KDTree query, sorted keys, frame->nodes mapping assumed as external contracts). Bounded: node construction, IoU and end-to-end cross-check on every placement of <=4 points in 4 frames and random label videos.",
+            "contract-based deductive verification (nested loop invariants, uninterpreted distance predicate) + bounded stand-in"),
     "C19": ("ensure_unique_labels proved for every number of frames/pixels by a loop invariant over the real loop (both multiseg settings); relabel_segmentation_with_track_id: bounded.",
             "contract-based deductive verification (loop invariant over a symbolic label array) + bounded stand-in"),
 }
@@ -75,7 +81,7 @@ for _k, (_t, _tech) in _MORE.items():
     CHECKS[_k] = {"category": "other", "text": _PB + _t, "note": _PROOF_NOTE + "Bounded stand-ins and assumed contracts are listed in evidence.coverage.bounded_stand_ins / trusted_base.",
                   "technique": _tech}
 CHECKS["C03"]["category"] = "other"
-CHECKS["C03"]["text"] = _PB + CHECKS["C03"]["text"] + " Bounded: bodies of the two track-neighbour queries whose contracts the proofs use."
+CHECKS["C03"]["text"] = _PB + CHECKS["C03"]["text"] + " The bodies of the two track-neighbour queries whose contracts the proofs use are proved too (C06 units); bounded cross-check of them on all small forests."
 for _k in ("C02", "C11", "C20"):
     CHECKS[_k]["note"] = CHECKS[_k]["note"].replace("UserUpdateSegmentation not yet under contract.", "UserUpdateSegmentation is not under contract (see C07 bounded stand-in).")
 
